@@ -218,6 +218,23 @@ func fBinop(r *run, op token.Token, x, y value) value {
 	panic(engineError{"symbolic float op " + op.String()})
 }
 
+// twin returns the real-valued twin of a bit-vector variable (created on
+// demand, unconstrained unless the harness linked it with vLinkReal).  The
+// twin over-approximates the integer by a real in the same range.
+func (r *run) twin(x *Term) *Term {
+	if t, ok := r.twins[x]; ok {
+		return t
+	}
+	t := r.fresh("twin_"+x.Name, "real", realSort)
+	r.twins[x] = t
+	// cheap integrality: an integer is 0 or at least 1 in magnitude
+	zero := mkReal(new(big.Rat))
+	one := mkReal(big.NewRat(1, 1))
+	mone := mkReal(big.NewRat(-1, 1))
+	r.assume(mkOr(mkEq(t, zero), mkOr(realCmp(">=", t, one), realCmp("<=", t, mone))))
+	return t
+}
+
 func intToFloat(r *run, x *Term, signed bool) value {
 	if x.IsConst() {
 		if signed {
@@ -225,38 +242,31 @@ func intToFloat(r *run, x *Term, signed bool) value {
 		}
 		return fval(float64(x.Val))
 	}
-	// exact integer value as a real via bv2nat-free encoding: fresh real tied
-	// to the bit-vector by an int variable
-	iv := r.fresh("int2real", "int", Sort{K: sReal})
-	w := x.S.W
-	// constrain iv = value(x) using bv2int
-	conv := &Term{Op: "bvtoreal", S: realSort, Args: []*Term{x}, id: nextID(), Ext: [2]int{w, boolToInt(signed)}}
-	r.assume(mkEq(iv, conv))
-	// int64 -> float64 rounds for |x| > 2^53
-	return &fsym{cls: fFinite, t: r.fround(iv)}
-}
-
-func boolToInt(b bool) int {
-	if b {
-		return 1
+	if x.Op != "var" {
+		// a computed integer: give it an unconstrained twin (over-approximation)
+		r.note("int->float conversion of a computed symbolic integer over-approximated by an arbitrary real")
 	}
-	return 0
+	return &fsym{cls: fFinite, t: r.fround(r.twin(x))}
 }
 
 func floatToInt(r *run, x value, w int, signed bool) value {
 	if f, ok := x.(fval); ok {
 		ff := float64(f)
+		if ff != ff || ff >= 9.3e18 || ff <= -9.3e18 {
+			r.floatConvIssue(fmt.Sprintf("conversion of %v to integer", ff))
+			return mkBV(w, uint64(1)<<uint(w-1))
+		}
 		if signed {
 			return mkBV(w, uint64(int64(ff)))
 		}
 		return mkBV(w, uint64(ff))
 	}
 	fs := x.(*fsym)
-	// Go leaves out-of-range conversions implementation-defined; the
-	// obligation is "finite and in range", reported through the float hook.
+	// Go leaves out-of-range conversions implementation-defined (amd64 yields
+	// the minimum integer); recorded as a fact of the path.
 	if fs.cls != fFinite {
 		r.floatConvIssue("conversion of " + []string{"finite", "+Inf", "-Inf", "NaN"}[fs.cls] + " to integer")
-		return mkBV(w, uint64(1)<<uint(w-1)) // amd64 result
+		return mkBV(w, uint64(1)<<uint(w-1))
 	}
 	lim := new(big.Rat).SetInt(new(big.Int).Lsh(big.NewInt(1), uint(w-1)))
 	inr := mkAnd(realCmp(">=", fs.t, mkReal(new(big.Rat).Neg(lim))), realCmp("<", fs.t, mkReal(lim)))
@@ -264,14 +274,13 @@ func floatToInt(r *run, x value, w int, signed bool) value {
 		r.floatConvIssue("conversion of out-of-range float to integer")
 		return mkBV(w, uint64(1)<<uint(w-1))
 	}
-	// result i with i <= x < i+1 (x>=0) / i-1 < x <= i (x<0): keep it as a
-	// real-valued integer term tied to a fresh bit-vector
+	// truncation toward zero, on the real twin of a fresh integer variable
 	iv := r.fresh("float2int", fmt.Sprintf("i%d", w), bvSort(w))
-	conv := &Term{Op: "bvtoreal", S: realSort, Args: []*Term{iv}, id: nextID(), Ext: [2]int{w, boolToInt(signed)}}
+	tw := r.twin(iv)
 	zero := mkReal(new(big.Rat))
 	one := mkReal(big.NewRat(1, 1))
-	pos := mkAnd(realCmp("<=", conv, fs.t), realCmp("<", fs.t, realBin("+", conv, one)))
-	neg := mkAnd(realCmp("<", realBin("-", conv, one), fs.t), realCmp("<=", fs.t, conv))
+	pos := mkAnd(realCmp("<=", tw, fs.t), realCmp("<", fs.t, realBin("+", tw, one)))
+	neg := mkAnd(realCmp("<", realBin("-", tw, one), fs.t), realCmp("<=", fs.t, tw))
 	r.assume(mkIte(realCmp(">=", fs.t, zero), pos, neg))
 	return iv
 }
